@@ -561,8 +561,11 @@ type opResult struct {
 	Trace   uint64
 	Nodes   int
 	Entry   time.Time // clock at entry (UTC)
-	HasTime bool      // the op carried its own OverrideTime
-	NowBad  bool      // ctx.Now was not one value across the node entries of this op
+	Exit    time.Time // clock when the call returned
+	CtxNow  time.Time // the instant the evaluation context carried (first node entry)
+	NowSet  bool
+	HasTime bool // the op carried its own OverrideTime
+	NowBad  bool // ctx.Now was not one value across the node entries of this op
 	Probes  string
 	Fired   bool   // node-error fault fired
 	After   string // patch: digest of the private resource after the operation
@@ -596,6 +599,7 @@ func execOp(op *Op, oc *opCtx, p *compiled, in0 *inputs, entryOverride *time.Tim
 			res.Outcome = "panic(" + maskPtr(fmt.Sprint(pv)) + ")"
 		}
 		res.Trace, res.Nodes, res.NowBad, res.Fired, res.Ticks = oc.trace, oc.nodes, oc.nowDiffer, oc.failFired, oc.ticks
+		res.Exit, res.CtxNow, res.NowSet = time.Now().UTC(), oc.now, oc.nowSet
 		res.Probes = strings.Join(oc.probes, ";")
 	}()
 	if !p.ok() {
